@@ -367,9 +367,13 @@ func (l *NDNLPLinkService) handleIncomingFrame(frame []byte) {
 		}
 
 		// Copy fragment to wire buffer
-		wire = wire[:0]
-		for _, b := range fragment {
-			wire = append(wire, b...)
+		if len(fragment) == 1 {
+			// Fragment is a part of the wire buffer (append moves it to the front)
+			wire = append(wire[:0], fragment[0]...)
+		} else {
+			// Reassembled packet: the last fragment received is still a part of the
+			// wire buffer, so it cannot be overwritten with the earlier fragments.
+			wire = fragment.Join()
 		}
 
 		// Parse inner packet in place
